@@ -470,7 +470,7 @@ def excluded_by(case, known):
                 if any("/" not in p for p in ends):
                     return "KF-C20-fsevents-nonrecursive-dir-children"
             if "KF-C20-fsevents-rename-chain" in known and case["emitter"] == "fsevents":
-                chain_ops = ("rename", "move_out", "rmtree", "rmdir", "unlink", "chmod", "write") if case.get("coalesce") else ("rename", "move_out")
+                chain_ops = ("rename", "move_out")  # modify / delete of a rename destination are coalesced flags the emitter handles
                 if k in chain_ops and op[1] in arrived:
                     return "KF-C20-fsevents-rename-chain"
                 if k == "rename":
